@@ -456,11 +456,17 @@ pub fn witness_shape(ctx: &TreeCtx, m: &ProofM) -> &'static str {
             last = Some(m.inner_leaves[i].0);
         }
     }
+    // an unused entry that is an identical copy (same position, same bytes) of the used entry at
+    // its position is vouched for by that entry's verification: it adds no cause of its own
+    let copy_of_used = |i: usize| {
+        let (p, l) = &m.inner_leaves[i];
+        m.inner_leaves.iter().enumerate().any(|(j, (q, k))| used[j] && q == p && k.hash == l.hash)
+    };
     let unused_false = m
         .inner_leaves
         .iter()
         .enumerate()
-        .any(|(i, (p, l))| !used[i] && !ctx.claim_true(*p, &l.hash));
+        .any(|(i, (p, l))| !used[i] && !copy_of_used(i) && !ctx.claim_true(*p, &l.hash));
     // do the entries verification uses hash to the committed root under the reference evaluation?
     let entries: Vec<(u64, Bytes)> = m.inner_leaves.iter().map(|(p, l)| (*p, l.hash.clone())).collect();
     let items: Vec<Bytes> = m.inner_proof_items.iter().map(|i| i.hash.clone()).collect();
